@@ -1,14 +1,19 @@
 ----------------------------- MODULE TraceWriter -----------------------------
 (***************************************************************************)
-(* State-graph comparison of the serializer at statement granularity.       *)
+(* State-graph comparison of the serializer at the granularity of one       *)
+(* public call: triple()/quad() = <<stmt>>, namespace_declaration() = <<ns>>,*)
+(* GraphStream.graph(g, triples) = <<gs, stmt, ..., stmt, ge>>.             *)
 (*                                                                          *)
 (* The harness walks, breadth first and on REAL Stream objects (deep-copied *)
 (* at branch points), every reachable idle state x every statement of a     *)
 (* slice universe, and records each real transition                         *)
-(*    [id, from (projection of the real state), st (the statement)]         *)
+(*    [id, from (projection of the real state), ops (the model ops of the   *)
+(*     call, in order)]                                                     *)
 (* TLC re-creates the model state from `from` (the reader's mirror state is *)
 (* reconstructed from the writer's, which is what invariant Mirrored says), *)
-(* takes the PyWriter actions Begin, SlotStep x arity, Commit for `st`,     *)
+(* takes the PyWriter actions of every op (stmt: Begin, SlotStep x arity,   *)
+(* Commit -- or SlotReject, after which the stream is failed; ns: Namespace;*)
+(* gs: GraphBegin; ge: GraphEnd),                                           *)
 (* and prints what the MODEL emits and where it ends up, together with the  *)
 (* composite verdict (Good: valid, faithful, tight).  The harness compares  *)
 (* rows and successor state with the real ones: one test per real           *)
@@ -27,7 +32,7 @@ TabOf(k) ==
 
 Inverse(t) == [i \in {t.idx[k] : k \in DOMAIN t.idx} |-> CHOOSE k \in DOMAIN t.idx : t.idx[k] = i]
 
-ReaderOf(tb, rp) ==           \* invariant Mirrored, read from right to left
+ReaderOf(tb, rp) ==           \* invariant Mirrored, read from right to left (a call starts and ends with every graph closed)
   [RdInit EXCEPT !.seen = TRUE, !.opt = OptRow,
                  !.names = Inverse(tb.N), !.pfx = Inverse(tb.P), !.dts = Inverse(tb.D),
                  !.lna = tb.N.la, !.lpa = tb.P.la, !.lda = tb.D.la,
@@ -45,13 +50,20 @@ TInit ==
   /\ buf = Tr.from.buf
   /\ bad = "" /\ hist = <<>>
 
+Op == Tr.ops[Len(hist) + 1]            \* every op appends exactly one record to hist when it completes (or is refused)
+
 TNext ==
   /\ UNCHANGED tid
-  /\ \/ (hist = <<>> /\ Begin)
-     \/ (pc = "slot" /\ SlotStep(Tr.st[Len(cur) + 1]))
-     \/ Commit
+  /\ Len(hist) < Len(Tr.ops) /\ pc # "failed"
+  /\ \/ (Op.op = "stmt" /\ Begin)
+     \/ (Op.op = "stmt" /\ pc = "slot" /\ (SlotStep(Op.st[Len(cur) + 1]) \/ SlotReject(Op.st[Len(cur) + 1])))
+     \/ (Op.op = "stmt" /\ Commit)
+     \/ (Op.op = "ns" /\ Namespace(Op.ns))
+     \/ (Op.op = "gs" /\ GraphBegin(Op.g))
+     \/ (Op.op = "ge" /\ GraphEnd)
 
 Report ==
-  (pc = "idle" /\ Len(hist) = 1) =>
-     PrintT("STEP " \o ToJson([id |-> Tr.id, bad |-> bad, rows |-> hist[1].rows, to |-> IdleKey]))
+  ((pc = "idle" /\ Len(hist) = Len(Tr.ops)) \/ pc = "failed") =>
+     PrintT("STEP " \o ToJson([id |-> Tr.id, bad |-> bad, rows |-> [i \in 1..Len(hist) |-> hist[i].rows],
+                               to |-> IF pc = "failed" THEN [failed |-> TRUE] ELSE IdleKey]))
 =============================================================================
